@@ -21,6 +21,7 @@ CHECKS = {
         ],
     ),
     "C14": dict(
+        fuzz=[('FuzzC14', 60), ('FuzzSpec', 60)],
         level="exploration",
         technique="property-based testing (rapid) + exhaustive prefix/block enumeration against a reference on net/netip + math/big",
         rule="specifications drawn from the documented grammar (single, a-b, v4/v6 CIDR with every prefix length, every contiguous v4 netmask; aligned and "
@@ -50,6 +51,7 @@ CHECKS = {
         ],
     ),
     "C09": dict(
+        fuzz=[('FuzzC09', 120)],
         level="exploration",
         technique="model-based property testing (rapid): operation sequences on the library view vs. slices of the canonical image; small-scope exhaustive boundary-pair sweep",
         rule="trees of <= 4 files with boundary sizes (0,1,2047..2049,4095..4097,64 KiB+-1,100000), optionally in a sub-directory, plain and PS3 mode; operation "
@@ -163,6 +165,7 @@ CHECKS = {
         ],
     ),
     "C10": dict(
+        fuzz=[('FuzzC10', 120)],
         level="exploration",
         technique="model-based property testing (rapid): Read/Seek/ReadAt sequences on the decrypting view vs. an independent AES-CBC reference decryptor (cross-checked against the openssl CLI)",
         rule="16-byte keys, region tables with 2..255 plain regions (adjacent regions, gaps of 0/1/few sectors, second region at sector 1, last region ending at or beyond the "
@@ -310,6 +313,7 @@ CHECKS = {
         ],
     ),
     "C04": dict(
+        fuzz=[('FuzzSFO', 90), ('FuzzImage', 90), ('FuzzStream', 90), ('FuzzINI', 30)],
         level="exploration",
         technique="structure-aware fuzzing (rapid) of hostile sessions against a worker process hosting the real binary under an address-space limit, hostile on-disk content through the library constructors and the CLI; native go fuzz targets in the thorough tier",
         rule="unit sessions: a worker = the real server binary under 'ulimit -v 8000000' over a static hostile fixture (29 malformed PARAM.SFO variants, encrypted images with region counts 0/1/256/2^31/"
